@@ -78,6 +78,9 @@ impl BarState {
         }
 
         if let Reset::All = mode {
+            // The position goes back to 0, so the estimator must not keep the old position as
+            // its last sample (it would ignore all progress up to it, or take it for a seek)
+            self.state.est = Estimator::new(now);
             self.state.pos.reset(now);
             self.state.status = Status::InProgress;
 
